@@ -276,6 +276,23 @@ class StmtMixin:
                 self.hset(s, "$seq", base.t, z3.Concat(pre, z3.Unit(box(self.heapify(s, v))), suf))
                 return [Res(s, SV("none"))]
             return self.may_raise(st, z3.And(i >= 0, i < n), "IndexError", k)
+        if base.k == "val" and not st.spec:
+            # x[k] = v on a dynamically typed value: a dict object is updated; any other object answers through an opaque __setitem__;
+            # a primitive raises TypeError
+            t = base.t
+            out = []
+            isd = z3.And(Val.is_RefV(t), clsof(Val.rv(t)) == self.ct.id("dict"))
+            for s2, b in self.fork(st, isd, "store:dict"):
+                if b:
+                    out.extend(self.store_item(s2, SV("dict", Val.rv(t)), idx, v))
+                    continue
+                for s3, b3 in self.fork(s2, Val.is_RefV(t), "store:obj"):
+                    if b3:
+                        for r in self.call_opaque(s3, SV("obj", Val.rv(t), h="Opaque"), "Opaque", "__setitem__", [idx, v], {}, None, None):
+                            out.append(r if r.exc is not None else Res(r.st, SV("none")))
+                    else:
+                        out.append(self.raise_new(s3, "TypeError"))
+            return out
         raise Unsupported("item store on " + base.k)
 
     def ex_AugAssign(self, s, st):
@@ -361,6 +378,12 @@ class StmtMixin:
         alts = []
         for cl in classes:
             cl = self.concretize(st, cl)
+            if cl.k == "ext" and self.ct.has(cl.t.split(".")[-1]):
+                # an exception class imported from a library module and known to the class table (e.g. json.JSONDecodeError)
+                nm = cl.t.split(".")[-1]
+                cl = SV("cls", z3.IntVal(self.ct.id(nm)), h=nm)
+            if cl.k == "builtin" and self.ct.has(cl.t):
+                cl = SV("cls", z3.IntVal(self.ct.id(cl.t)), h=cl.t)
             if cl.k != "cls":
                 raise Unsupported("except clause is not a class")
             alts.append(issub(c, cl.t))
